@@ -485,6 +485,11 @@ def gen_keyless(rng, fmt, strategy, force, path, form, opts=None):
         a = attributes(rng, fmt, idkey, key, opts)
         if form != "autoid":
             a = [x for x in a if x[0] != idkey]      # the key does not come from an attribute; the line may end up bare
+        if fmt == "gff3" and a and not a[0][1]:
+            # a key=value column never STARTS with a valueless flag (outside the grammar: indistinguishable from the
+            # 'key value' style, see C07): a valued attribute goes first, or one is added
+            valued = [x for x in a if x[1]]
+            a = (valued[:1] or [["Note", ["n"]]]) + [x for x in a if x is not (valued[0] if valued else None)]
         return a
 
     def push(rec):
@@ -496,7 +501,7 @@ def gen_keyless(rng, fmt, strategy, force, path, form, opts=None):
         return True
 
     # a leading feature with attributes and a key of its own (lets the GTF dialect be detected from the first line)
-    if fmt == "gtf" or rng.random() < 0.5:
+    if True:
         lead = dict(columns(rng), seqid="c9", source="lead", featuretype="leadtype", start="1", end="50")
         lead["attrs"] = attributes(rng, fmt, idkey, "lead", opts)
         lead["extra"] = []
